@@ -621,9 +621,10 @@ pub fn drive_ctl(s: &mut Session, rng: &mut Rng, full: bool) {
         s.start(c, "ctl");
         let mut first = true;
         for k in 0..128u8 {
-            if k == 123 {
-                // keep a note held across most of the sweep so that note state is checked untouched
-                s.bytes(&[0x90 | c, 60, 100]);
+            if k == 123 || k >= 118 || k % 13 == 0 {
+                // a key is held while these controllers sweep (CC 123 releases it, the channel-mode
+                // controllers around it and every other number must leave it alone)
+                s.bytes(&[0x90 | c, 48 + k % 24, 100]);
                 first = true;
             }
             for v in 0..128u8 {
